@@ -409,10 +409,11 @@ impl<T: Send> Sender<T> {
   /// `Sender` is not called.
   pub fn to_async(self) -> AsyncSender<T> {
     let shared = unsafe { std::ptr::read(&self.shared) };
+    let closed = self.closed.load(Ordering::Relaxed);
     mem::forget(self);
     AsyncSender {
       shared,
-      closed: AtomicBool::new(false),
+      closed: AtomicBool::new(closed),
     }
   }
 
@@ -636,10 +637,11 @@ impl<T: Send> Receiver<T> {
   /// `Receiver` is not called.
   pub fn to_async(self) -> AsyncReceiver<T> {
     let shared = unsafe { std::ptr::read(&self.shared) };
+    let closed = self.closed.load(Ordering::Relaxed);
     mem::forget(self);
     AsyncReceiver {
       shared,
-      closed: AtomicBool::new(false),
+      closed: AtomicBool::new(closed),
       state: AtomicU8::new(STATE_WAITING),
       is_registered: false,
     }
@@ -830,10 +832,11 @@ impl<T: Send> AsyncSender<T> {
   /// `AsyncSender` is not called.
   pub fn to_sync(self) -> Sender<T> {
     let shared = unsafe { std::ptr::read(&self.shared) };
+    let closed = self.closed.load(Ordering::Relaxed);
     mem::forget(self);
     Sender {
       shared,
-      closed: AtomicBool::new(false),
+      closed: AtomicBool::new(closed),
     }
   }
 
@@ -1051,10 +1054,11 @@ impl<T: Send> AsyncReceiver<T> {
       }
     }
     let shared = unsafe { std::ptr::read(&self.shared) };
+    let closed = self.closed.load(Ordering::Relaxed);
     mem::forget(self); // AtomicU8 has no destructor; safe to forget.
     Receiver {
       shared,
-      closed: AtomicBool::new(false),
+      closed: AtomicBool::new(closed),
     }
   }
 
